@@ -516,7 +516,11 @@ def check(case, vals=None):
                     # an empty selection keeps one 0-length piece of some block and reads that block
                     labs.add("empty-selection-reads-a-block")
                 elif chain_unit_step(prog, o):
-                    fails.append(("metamorphic|sliced-read-not-subset", f"output {o} = var{v}[...] requests {int(extra.sum())} elements that computing var{v} alone does not request; y: {[m[0] for m in mine]!r}; v: {[m[0] for m in mine_v]!r}"))
+                    # NOT a failure: the property asks for exactly NumPy's elements and in-bounds requests, not
+                    # for minimal reads.  abs(x)[:3][:2][:1] reads rows 0:3 (the innermost window is absorbed
+                    # first, the outer two are cut from it in the graph) while abs(x)[:3][:2] reads 0:2 - an
+                    # over-read, still in bounds and still the right values (found by the thorough tier).
+                    labs.add("slice-of-y-reads-beyond-y")
                 else:
                     labs.add("unpushable-slice-reads-beyond-prefix")
             else:
